@@ -1,0 +1,59 @@
+// Verification hooks (deterministic simulation); compiled only with `--cfg maidsafe_safe_network_verif`.
+//
+// A public handle on the crate-private `Node`, built around a `Network` whose `SwarmDriver` is driven
+// by an external simulator instead of `SwarmDriver::run`.
+
+use super::*;
+use libp2p::kad::Record;
+
+#[derive(Clone)]
+pub struct VerifNode {
+    node: Node,
+    peers_connected: Arc<AtomicUsize>,
+}
+
+impl VerifNode {
+    pub fn new(network: Network, evm_network: EvmNetwork, reward_address: RewardsAddress) -> Self {
+        let node = Node {
+            inner: Arc::new(NodeInner {
+                events_channel: NodeEventsChannel::default(),
+                initial_peers: vec![],
+                network,
+                #[cfg(feature = "open-metrics")]
+                metrics_recorder: None,
+                reward_address,
+                evm_network,
+            }),
+        };
+        Self {
+            node,
+            peers_connected: Arc::new(AtomicUsize::new(0)),
+        }
+    }
+
+    pub fn network(&self) -> &Network {
+        self.node.network()
+    }
+
+    /// The real event dispatcher of the node's event loop.
+    pub fn handle_network_event(&self, event: NetworkEvent) {
+        self.node.handle_network_event(event, &self.peers_connected)
+    }
+
+    pub async fn validate_and_store_record(&self, record: Record) -> Result<()> {
+        self.node.validate_and_store_record(record).await
+    }
+
+    pub async fn store_replicated_in_record(&self, record: Record) -> Result<()> {
+        self.node.store_replicated_in_record(record).await
+    }
+
+    pub async fn handle_query(&self, query: Query) -> Response {
+        Node::handle_query(self.node.network(), query, *self.node.reward_address()).await
+    }
+
+    /// What the periodic replication tick of `Node::run` does.
+    pub fn try_interval_replication(&self) {
+        Node::try_interval_replication(self.node.network().clone())
+    }
+}
